@@ -67,6 +67,13 @@ func (d *Device) checkCrashed() {
 	}
 }
 
+// Journal returns a copy of the unsynced sector writes.
+func (d *Device) Journal() []JournalEntry {
+	d.mu.Lock()
+	defer d.mu.Unlock()
+	return append([]JournalEntry(nil), d.journal...)
+}
+
 func (d *Device) ReadAt(p []byte, off int64) (int, error) {
 	if h := d.Hooks.Before; h != nil {
 		if err := h("R", off, len(p)); err != nil {
